@@ -221,6 +221,20 @@ def w24_values(s):
         s = t
 
 
+_B1_UN = re.compile(r'\(U(\d+) a(-?\d+)\)')
+_B1_ATOM = re.compile(r'\ba(-?\d+)\b')
+
+
+def b1_values(s):
+    """the one-byte element type: atoms are reduced mod 256, closure f maps value v to (v + 37*(f-9)) mod 256"""
+    while True:
+        t = _B1_UN.sub(lambda m: 'a' + str((int(m.group(2)) + 37 * (int(m.group(1)) - 9)) % 256), s)
+        if t == s:
+            break
+        s = t
+    return _B1_ATOM.sub(lambda m: 'a' + str(int(m.group(1)) % 256), s)
+
+
 def split_top(s):
     """split '[a,b,(c d),[e,f]]' contents at top-level commas"""
     parts, depth, cur = [], 0, ''
@@ -248,9 +262,12 @@ def canon_line(line, case, op, side_of_model=False):
         if not obs.startswith('S:'):
             obs = mask_elems(obs)
         pool = mask_elems(pool)
-    elif case.elem == 'w24':
+    elif case.elem in ('w24', 'pn'):
         obs = w24_values(re.sub(r'\bD\b', 'a0', obs))
         pool = w24_values(re.sub(r'\bD\b', 'a0', pool))
+    elif case.elem == 'b1':
+        obs = b1_values(re.sub(r'\bD\b', 'a0', obs)) if not obs.startswith('S:') else obs
+        pool = b1_values(re.sub(r'\bD\b', 'a0', pool))
     if op is not None and op[0] in (123, 124, 125, 126, 127, 128) and obs.startswith('['):
         obs = '[' + ','.join(sorted(split_top(obs[1:-1]))) + ']'
     return obs, pool
